@@ -32,6 +32,9 @@ STDLIB_AXIOMS = {
     "Classical_Prop.classic",
 }
 
+R_AX = sorted(STDLIB_AXIOMS)
+
+
 # primitive float / int63 constants show up under "Axioms:" in Print Assumptions; they are
 # the kernel's native binary64 / 63-bit integer primitives, not declared axioms
 FLOAT_PRIMS = {"float", "add", "sub", "mul", "div", "sqrt", "ltb", "leb", "eqb", "abs", "opp", "compare",
